@@ -66,8 +66,12 @@ func refPort(s string) (string, bool) {
 	return strconv.Itoa(v), true
 }
 
-func c17One(c *Ctx, kvs []KV, viaConstructor bool) {
+// wireOrder: keep the pairs in the order given (a wire mapping need not be sorted) instead of sorting them
+func c17One(c *Ctx, kvs []KV, viaConstructor bool, wireOrder ...bool) {
 	w := raFromOptions(sortKVs(kvs))
+	if len(wireOrder) > 0 && wireOrder[0] && !viaConstructor {
+		w = raFromOptions(kvs)
+	}
 	var ra router_address.RouterAddress
 	var perr error
 	if viaConstructor {
@@ -184,11 +188,15 @@ func runC17(c *Ctx) {
 		for _, via := range []bool{false, true} {
 			c17One(c, []KV{{[]byte("host"), []byte(h)}, {[]byte("port"), []byte("12345")}}, via)
 		}
+		// unsorted wire order, with and without a pair in front
+		c17One(c, []KV{{[]byte("port"), []byte("12345")}, {[]byte("host"), []byte(h)}}, false, true)
+		c17One(c, []KV{{[]byte("zz"), []byte("1")}, {[]byte("port"), []byte("12345")}, {[]byte("caps"), []byte("BC")}, {[]byte("host"), []byte(h)}}, false, true)
 	}
 	for _, p := range portPool {
 		for _, via := range []bool{false, true} {
 			c17One(c, []KV{{[]byte("host"), []byte("192.0.2.7")}, {[]byte("port"), []byte(p)}}, via)
 		}
+		c17One(c, []KV{{[]byte("s"), []byte("x")}, {[]byte("port"), []byte(p)}, {[]byte("host"), []byte("192.0.2.7")}}, false, true)
 	}
 	decoys := []string{"hos", "hostx", "Host", "por", "ports", "port ", "caps", "s", "i", "v", "ss", "ih0"}
 	for i := 0; i < c.N(600, 30000); i++ {
@@ -241,6 +249,14 @@ func runC17(c *Ctx) {
 		for k := 0; k < r.Intn(3); k++ {
 			add(decoys[r.Intn(len(decoys))], r.Bytes(r.Intn(6)))
 		}
-		c17One(c, kvs, r.Intn(3) == 0)
+		if r.Bool() { // random wire order
+			for j := len(kvs) - 1; j > 0; j-- {
+				k := r.Intn(j + 1)
+				kvs[j], kvs[k] = kvs[k], kvs[j]
+			}
+			c17One(c, kvs, r.Intn(3) == 0, true)
+		} else {
+			c17One(c, kvs, r.Intn(3) == 0)
+		}
 	}
 }
